@@ -31,7 +31,9 @@ static AutDescription genDesc(vh::Rng& g, int maxRank, bool hostile)
 	int ns = g.range(1, 4); std::vector<std::pair<std::string, int>> syms;
 	for (int i = 0; i < ns; ++i)
 	{
-		std::string n = hostile ? hostileName(g) : "s" + std::to_string(i); int rk = g.range(0, maxRank); bool dup = false;
+		// plain names: s<i>, or now and then a one-letter name (the word-automaton dump itself writes a placeholder
+		// start symbol "x": names the code uses for its own purposes must round-trip like any other — seeded change m91)
+		std::string n = hostile ? hostileName(g) : (g.chance(1, 4) ? std::string(1, "xabfgyzq"[g.below(8)]) : "s" + std::to_string(i)); int rk = g.range(0, maxRank); bool dup = false;
 		// wide rules: up to the largest arity the top-down symbolic encoding supports (6 arity bits: 63), around powers of two
 		if (maxRank > 1 && g.chance(1, 10)) { static const int wide[] = {4, 7, 8, 9, 15, 16, 17, 31, 32, 33, 47, 61, 62, 63}; rk = wide[g.below(sizeof(wide) / sizeof(*wide))]; } for (auto& s : syms) if (s.first == n) dup = true; if (dup) continue;
 		syms.push_back({n, rk});
@@ -39,7 +41,7 @@ static AutDescription genDesc(vh::Rng& g, int maxRank, bool hostile)
 		int decl = static_cast<int>(g.below(8)); if (decl == 0) d.symbols.insert(std::make_pair(n, -1)); else if (decl != 1) d.symbols.insert(syms.back());
 	}
 	int nq = g.range(0, 4); std::vector<std::string> sts;
-	for (int i = 0; i < nq; ++i) { sts.push_back(hostile ? hostileName(g) : "q" + std::to_string(i)); d.states.insert(sts.back()); }
+	for (int i = 0; i < nq; ++i) { std::string n = hostile ? hostileName(g) : (g.chance(1, 8) ? std::string(1, "xq01ab"[g.below(6)]) + (i ? std::to_string(i) : "") : "q" + std::to_string(i)); sts.push_back(n); d.states.insert(sts.back()); }
 	if (sts.empty()) return d;        // empty sections
 	int nf = g.range(0, 2); for (int i = 0; i < nf; ++i) d.finalStates.insert(sts[g.below(nq)]);
 	int nr = g.range(0, 6);
